@@ -413,6 +413,7 @@ pub fn decode_frame(frame: &[u8]) -> Sx {
     // the library's own decision procedure (lib.rs handle()): UTF-8 throughout, then serde_json on the text
     let parsed = match std::str::from_utf8(frame) {
         Err(_) => None,
+        Ok(text) if !text.trim_start_matches(|c| matches!(c, ' ' | '\t' | '\n' | '\r')).starts_with('{') => None,
         Ok(text) => serde_json::from_str::<varlink::Request>(text).ok(),
     };
     match parsed {
@@ -687,7 +688,8 @@ pub fn configs() -> Vec<SvcCfg> {
             ],
             true,
         ),
-        svc_cfg("v3", &[("s.t", "d"), ("s.t.u", "d2")], false),
+        svc_cfg("v3", &[("s.t", "d"), ("s.t.u", "d2"),
+            ("x.weird", "\u{feff}interface x.weird\n# soft\u{ad}hyphen, joiner \u{200d}, delete \u{7f}, escape \u{1b}, line sep \u{2028}\nmethod M() -> ()\n")], false),
     ]
 }
 
@@ -919,7 +921,23 @@ pub fn gen_request(rng: &mut Rng, cfg: &SvcCfg, token: &str) -> GenReq {
 /// a frame serde_json must reject (or that is at least hostile)
 pub fn gen_malformed(rng: &mut Rng, cfg: &SvcCfg, token: &str) -> GenReq {
     let good = gen_request(rng, cfg, token).bytes;
-    let (bytes, kind): (Vec<u8>, &str) = match rng.below(20) {
+    let (bytes, kind): (Vec<u8>, &str) = match rng.below(24) {
+        20 | 21 => {
+            // the envelope as a JSON array in the member order of the library's struct: not a message
+            let flags = match rng.below(3) { 0 => "null,null,null", 1 => "true,null,null", _ => "null,null,false" };
+            let v = format!("[{},\"no.such{}.M\",{{\"token\":\"{}\"}}]", flags, token, token);
+            (v.into_bytes(), "bad:array-envelope")
+        }
+        22 | 23 => {
+            // a well-formed request wrapped, inside its frame, in blanks that are blanks for Unicode but not for JSON
+            let blank = *rng.pick(&["\u{a0}", "\u{2028}", "\u{3000}", "\u{85}", "\u{b}", "\u{c}", "\u{feff}", "\u{2003}"]);
+            let mut v = Vec::new();
+            let front = rng.chance(1, 2);
+            if front { v.extend_from_slice(blank.as_bytes()); }
+            v.extend_from_slice(format!("{{\"method\":\"no.such{}.M\",\"parameters\":{{\"token\":\"{}\"}}}}", token, token).as_bytes());
+            if !front || rng.chance(1, 2) { v.extend_from_slice(blank.as_bytes()); }
+            (v, "bad:wrapped-in-unicode-blanks")
+        }
         18 | 19 => {
             // bytes that are not UTF-8 where a parser that only looks at what it needs never looks: inside
             // the string value (or the name) of an envelope member the library has no use for
@@ -1320,6 +1338,68 @@ impl Suite for WireSuite {
                     }
                 }
             }
+        }
+        // bytes that are not UTF-8, in a member the library skips, placed so that the sequence is cut by the
+        // library's own 8 KiB reads (lead byte = last byte of a read)
+        {
+            let cfg = &cfgs[0];
+            for bad in [&b"\xe0\xa0"[..0], &b"\xe0\x80\x80"[..], &b"\xed\xa0\x80"[..], &b"\xf0\x80\x80\x80"[..], &b"\xf4\x90\x80\x80"[..], &b"\xc3"[..]] {
+                if bad.is_empty() { continue; }
+                for lead_at in [8190usize, 8191, 8192, 16383] {
+                    let head = b"{\"method\":\"org.varlink.service.GetInfo\",\"comment\":\"";
+                    let mut total = head.to_vec();
+                    while total.len() < lead_at { total.push(b'x'); }
+                    total.extend_from_slice(bad);
+                    total.extend_from_slice(b"\"}");
+                    total.push(0);
+                    total.extend_from_slice(&serde_json::to_vec(&json!({"method":"org.varlink.service.GetInfo","parameters":{"token":"t1z"}})).unwrap());
+                    total.push(0);
+                    cases.push(Case { input: mk_case("whole", cfg, &[total.clone()], &total), tags: vec!["bad-utf8-across-read-boundary".into()] });
+                }
+            }
+        }
+        // very many small requests in one piece (nothing may depend on how many messages one call handles)
+        {
+            let cfg = &cfgs[1];
+            for n in [127usize, 128, 129, 300] {
+                let mut total = Vec::new();
+                for k in 0..n {
+                    let v = json!({"method": format!("no.such.t{}nz.M", k), "parameters": {"token": format!("t{}nz", k)}});
+                    total.extend_from_slice(&serde_json::to_vec(&v).unwrap());
+                    total.push(0);
+                }
+                cases.push(Case { input: mk_case("whole", cfg, &[total.clone()], &total), tags: vec!["many-requests-in-one-piece".into()] });
+                cases.push(Case { input: mk_case("feed", cfg, &[total.clone()], &total), tags: vec!["many-requests-in-one-piece".into()] });
+                let half = total.len() / 2;
+                cases.push(Case { input: mk_case("feed", cfg, &[total[..half].to_vec(), total[half..].to_vec()], &total), tags: vec!["many-requests-in-one-piece".into()] });
+            }
+        }
+        // the definition text of an interface is returned verbatim whatever characters it contains
+        {
+            let cfg = &cfgs[3];
+            for fl in [vec![], vec!["more"]] {
+                tok += 1;
+                let mut v = json!({"method":"org.varlink.service.GetInterfaceDescription","parameters":{"interface":"x.weird"}});
+                for f in fl.iter() { v[*f] = json!(true); }
+                let mut total = serde_json::to_vec(&v).unwrap();
+                total.push(0);
+                total.extend_from_slice(&serde_json::to_vec(&json!({"method":"org.varlink.service.GetInfo","parameters":{"token": format!("t{}z", tok)}})).unwrap());
+                total.push(0);
+                cases.push(Case { input: mk_case("whole", cfg, &[total.clone()], &total), tags: vec!["description-with-unusual-characters".into()] });
+            }
+        }
+        if ctx.prop == "C02" {
+            // one request larger than a megabyte, fed in pieces of several hundred KiB (quick tier of C02 only)
+            let pad = "x".repeat(1_300_000);
+            let big = serde_json::to_vec(&json!({"method":"org.varlink.service.GetInfo","parameters":{"pad":pad,"token":"t2z"}})).unwrap();
+            let mut total = serde_json::to_vec(&json!({"method":"org.varlink.service.GetInfo","parameters":{"token":"t1z"}})).unwrap();
+            total.push(0);
+            total.extend_from_slice(&big);
+            total.push(0);
+            total.extend_from_slice(&serde_json::to_vec(&json!({"method":"org.varlink.service.GetInfo","parameters":{"token":"t3z"}})).unwrap());
+            total.push(0);
+            let chunks: Vec<Vec<u8>> = total.chunks(600 * 1024).map(|c| c.to_vec()).collect();
+            cases.push(Case { input: mk_case("feed", &cfgs[0], &chunks, &total), tags: vec!["oversize:valid-1.3MB-in-600KiB-pieces".into()] });
         }
         // replies of every length around the sizes at which buffers are usually cut (a reply and its terminator
         // must arrive whatever its length)
